@@ -153,8 +153,8 @@ type ctrDef struct {
 	ID    string `json:"id"`
 	State string `json:"state"`
 	// files
-	IPFiles  []ipFile `json:"ip_files"`
-	StateIn  []int    `json:"state_in"` // gc dirs (by index) holding a state file named by the id
+	IPFiles []ipFile `json:"ip_files"`
+	StateIn []int    `json:"state_in"` // gc dirs (by index) holding a state file named by the id
 }
 
 type ipFile struct {
@@ -166,7 +166,7 @@ type ipFile struct {
 type c17Case struct {
 	Containerd bool     `json:"containerd"`
 	Ctrs       []ctrDef `json:"ctrs"`
-	Extra      int      `json:"extra"`  // non-container files: non-IP names and empty files in the IP dirs, sub-directories everywhere
+	Extra      int      `json:"extra"`    // non-container files: non-IP names and empty files in the IP dirs, sub-directories everywhere
 	PortErr    bool     `json:"port_err"` // the port-clean callback fails
 	MissingDir bool     `json:"missing_dir"`
 }
